@@ -2949,6 +2949,17 @@ impl QueryJob {
                                     &rule,
                                 )?;
 
+                                // Recursion through negation can arise across the persistent /
+                                // session boundary: the combined rule set (persistent rules of this
+                                // graph, the request's session rules so far, this rule) must stay
+                                // stratified.
+                                let mut combined_rules = storage
+                                    .with_kg_read(&kg_name, |kg| Ok(kg.rule_catalog().all_rules()))
+                                    .map_err(|e| e.to_string())?;
+                                combined_rules.extend(session_rules_parsed.iter().cloned());
+                                combined_rules.push(rule.clone());
+                                crate::rule_catalog::validate_rules_stratification(&combined_rules)?;
+
                                 let rule_text = format_rule_text(&rule);
                                 session_rules.push(rule_text.clone());
                                 session_rules_parsed.push(rule.clone());
@@ -4528,6 +4539,19 @@ impl Handler {
                             &existing_rules,
                             rule,
                         )?;
+
+                        // The combined rule set (persistent rules of the session's graph, the
+                        // session's rules, this rule) must stay stratified.
+                        if let Ok(session_kg) = self.sessions.session_kg(sid) {
+                            let mut combined_rules = self
+                                .storage
+                                .read()
+                                .with_kg_read(&session_kg, |kg| Ok(kg.rule_catalog().all_rules()))
+                                .unwrap_or_default();
+                            combined_rules.extend(existing_rules.iter().cloned());
+                            combined_rules.push(rule.clone());
+                            crate::rule_catalog::validate_rules_stratification(&combined_rules)?;
+                        }
 
                         let rule_text = format_rule_text(rule);
                         self.sessions
